@@ -5,7 +5,7 @@
 Require Extraction.
 Require Import ExtrOcamlBasic.
 From Coq Require Import ZArith.
-From BE Require Model.Timer Model.Regs Model.Decode.
+From BE Require Model.Timer Model.Regs Model.Decode Model.Lcd.
 Extraction Language OCaml.
 
 Definition timer_py_run := Timer.py_run.
@@ -22,7 +22,11 @@ Definition dec_text := Decode.c_text.
 Definition dec_llil := Decode.c_llil.
 Definition dec_emu := Decode.c_emu.
 
+Definition lcd_py_run := Lcd.py_run.
+Definition lcd_rs_run := Lcd.rs_run.
+
 Extraction "Extract/model.ml"
   BinInt.Z.add timer_py_run timer_rs_run timer_py_init timer_rs_init
   regs_py_run regs_rs_run
-  dec_decode dec_encode dec_info dec_text dec_llil dec_emu.
+  dec_decode dec_encode dec_info dec_text dec_llil dec_emu
+  lcd_py_run lcd_rs_run.
